@@ -386,3 +386,31 @@ def rule_fallback(prog: Program, modules: Optional[Set[str]] = None) -> List[Ins
                                         f"`{short(o, 50)}` (the value taken from the data) is only reached when `{short(dep[0][0], 40)}` is {dep[0][1]}: supplying {fb} overrides the data" if dep
                                         else f"`{t}` is computed from the data whether or not {fb} is supplied; the fallback applies only where the computation is impossible", fi.where(o)))
     return out
+
+
+# ---------------------------------------------------------------------------------------------
+# R-TOL: math.isclose(a, b, abs_tol=t) is not an absolute tolerance
+# ---------------------------------------------------------------------------------------------
+def rule_isclose(prog: Program, modules: Optional[Set[str]] = None) -> List[Instance]:
+    """`math.isclose(a, b, abs_tol=t)` accepts when |a-b| <= max(rel_tol*max(|a|,|b|), t) with the default
+    rel_tol=1e-9: for large magnitudes the relative part dominates and the caller's absolute tolerance is
+    silently widened (1e9 + 0.4 is "close" to 1e9). Where the tolerance comes from a parameter - the
+    function promises its caller that tolerance - rel_tol must be given explicitly."""
+    out: List[Instance] = []
+    n_seen = 0
+    for fi in prog.all_functions(modules):
+        params = set(fi.param_names())
+        for n in walk_own(fi.node):
+            if not (isinstance(n, ast.Call) and ((isinstance(n.func, ast.Name) and n.func.id == "isclose") or (isinstance(n.func, ast.Attribute) and n.func.attr == "isclose" and isinstance(n.func.value, ast.Name) and n.func.value.id == "math"))):
+                continue
+            kws = {k.arg: k.value for k in n.keywords}
+            if "abs_tol" not in kws:
+                continue
+            n_seen += 1
+            from_param = bool({x.id for x in ast.walk(kws["abs_tol"]) if isinstance(x, ast.Name)} & params)
+            ok = "rel_tol" in kws or not from_param
+            out.append(Instance("R-TOL", f"{fi.qual}#isclose:{short(n, 40)}", OK if ok else BAD,
+                                "relative part of math.isclose given explicitly" if ok else
+                                f"`{short(n, 70)}` passes the caller's absolute tolerance as abs_tol but leaves rel_tol at its default 1e-9: for large values the tolerance grows with the magnitude", fi.where(n)))
+    out.append(Instance("R-TOL", "isclose-scan", OK, f"{n_seen} math.isclose(abs_tol=...) calls", "", nontrivial=False))
+    return out
